@@ -197,6 +197,29 @@ def tsuffix (ts : Terms) (a : Int) : Terms := ts.drop a.toNat
 /-- terms `[a, b)` -/
 def tslice (ts : Terms) (a b : Int) : Terms := (ts.take b.toNat).drop a.toNat
 
+/-! ## one stable sort by the tuple of a direction group's values (the Sort arm of the iteration engine) -/
+
+/-- direction-adjusted value: descending order is ascending order on the negated value -/
+def ckey (asc : Bool) (c : Callable) (r : Row) : Int := if asc = true then c.fn r else - c.fn r
+
+/-- `tuple(c(r) for c in cs) <= tuple(c(s) for c in cs)` (with `reverse`: `>=`), i.e. lexicographic on the adjusted values -/
+def lexLe (asc : Bool) : List Callable → Row → Row → Prop
+  | [], _, _ => True
+  | c :: cs, r, s => ckey asc c r < ckey asc c s ∨ (ckey asc c r = ckey asc c s ∧ lexLe asc cs r s)
+
+noncomputable instance (asc : Bool) (cs : List Callable) : DecidableRel (lexLe asc cs) := fun _ _ => Classical.propDecidable _
+
+/-- rows sorted once by the tuple of the callables' values (`reverse = ¬asc`) -/
+noncomputable def sortcRows (cs : List Callable) (asc : Bool) (l : List Row) : List Row := l.insertionSort (lexLe asc cs)
+
+/-- `rows.sort(key=lambda row: tuple(c(row) for c in cs), reverse=not asc)` -/
+noncomputable def sortc (cs : List Callable) (asc : Bool) (X : RS) : RS := ⟨X.cols, sortcRows cs asc X.rows⟩
+/-- the callables denote, one by one, the expressions of the terms `[a, b)` -/
+def den_terms (cs : List Callable) (ts : Terms) (a b : Int) : Prop :=
+  List.Forall₂ (fun c (t : Term) => den_x c t.1) cs (tslice ts a b)
+/-- the terms `[a, b)` all have direction `d` -/
+def same_dir (ts : Terms) (a b : Int) (d : Bool) : Prop := ∀ t ∈ tslice ts a b, t.2 = d
+
 /-! ## Formula abbreviations of laws.py (`wf`, `win_equiv`, `noshadow`) -/
 
 /-- well-formed slice bounds -/
